@@ -68,6 +68,7 @@ pub struct ProjStats {
     pub range_keys: u64,
     pub plural_keys: u64,
     pub comp_depth_max: usize,
+    pub expected_error_kinds: Vec<String>,
 }
 
 fn fail(sig: &str, detail: J) -> Failure {
@@ -471,6 +472,7 @@ pub fn check_project(p: &Project, opts: &CheckOpts, dir: &Path, t: &mut Tape) ->
     sem.null_fk = opts.null_fk;
     let expected = expected_errors(p, &sem);
     st.expected_error = !expected.is_empty();
+    st.expected_error_kinds = expected.iter().map(|e| format!("{:?}", e.kind).split(['(', ' ']).next().unwrap_or("").to_string()).collect::<BTreeSet<_>>().into_iter().collect();
 
     let manifest = ser::manifest_text(p, opts.default_listed);
     if let Err(e) = ser::write_project_with(p, dir, &opts.style, &manifest, &|_, _| 0) {
